@@ -704,3 +704,54 @@ func validateField(val protovalidate.Validator, md protoreflect.MessageDescripto
 	sort.Strings(vd.Ids)
 	return vd
 }
+
+func setField(msg protoreflect.Message, fd protoreflect.FieldDescriptor, fv FValue) {
+	switch {
+	case fv.Absent:
+	case fv.IsMap:
+		m := msg.Mutable(fd).Map()
+		for i, v := range fv.List {
+			m.Set(protoreflect.ValueOfString(fv.Keys[i]).MapKey(), pvalue(fd.MapValue(), v))
+		}
+	case fv.Many:
+		l := msg.Mutable(fd).List()
+		for _, v := range fv.List {
+			l.Append(pvalue(fd, v))
+		}
+	default:
+		msg.Set(fd, pvalue(fd, fv.One))
+	}
+}
+
+// validateMessage sets the first len(fvs) fields and reports whether the real
+// validator raises a violation on any of them (violations inside populated
+// message values do not count).
+func validateMessage(val protovalidate.Validator, md protoreflect.MessageDescriptor, fvs []FValue) (vd verdict) {
+	defer func() {
+		if r := recover(); r != nil {
+			vd = verdict{Problem: fmt.Sprintf("panic: %v", r)}
+		}
+	}()
+	msg := dynamicpb.NewMessage(md)
+	for i, fv := range fvs {
+		setField(msg, md.Fields().Get(i), fv)
+	}
+	err := val.Validate(msg)
+	if err == nil {
+		return verdict{Accept: true}
+	}
+	ve, ok := err.(*protovalidate.ValidationError)
+	if !ok {
+		return verdict{Problem: err.Error()}
+	}
+	vd.Accept = true
+	for _, v := range ve.Violations {
+		els := v.Proto.GetField().GetElements()
+		if len(els) == 1 && int(els[0].GetFieldNumber()) <= len(fvs) {
+			vd.Accept = false
+			vd.Ids = append(vd.Ids, v.Proto.GetConstraintId())
+		}
+	}
+	sort.Strings(vd.Ids)
+	return vd
+}
